@@ -110,7 +110,7 @@ func c13EpochOpts(seed int64) map[string]cargen.Opts {
 	r := rand.New(rand.NewSource(seed*7919 + 13))
 	return map[string]cargen.Opts{
 		// every file (but sig-exists and block-time, whose size is fixed by the format) stays small
-		"tiny": {Epoch: 7, Seed: seed*1000 + 1, NSlots: 3 + r.Intn(2), MaxEntries: 1, MaxTx: 2, ExactTx: 3 + r.Intn(3), TinyOneIn: 1,
+		"tiny": {Epoch: 8, Seed: seed*1000 + 1, NSlots: 3 + r.Intn(2), MaxEntries: 1, MaxTx: 2, ExactTx: 3 + r.Intn(3), TinyOneIn: 1,
 			RewardsOneIn: 2, LastSlot: seed%2 == 0, BlocktimeEdgeOneIn: 2},
 		"small": {Epoch: 7, Seed: seed*1000 + 2, NSlots: 24 + r.Intn(12), SkipOneIn: 3, MaxEntries: 3, MaxTx: 4, MultiFrameOneIn: 4, MaxFrames: 5,
 			RewardsOneIn: 3, VoteOneIn: 4, FailOneIn: 5, V0OneIn: 4, LastSlot: true, BlocktimeEdgeOneIn: 4, SigEdgeOneIn: 3, BigOneIn: 29,
